@@ -27,7 +27,8 @@ func c17Alphabet(lang string) []string {
 		return []string{"*", "a", "b", "1", "2.5", `"x y"`, "=", "!=", "<", ">=", "(", ")", "|", "AND", "OR", "NOT", "stats", "count", "by", "eval", "where",
 			"head", "sort", "-", "dedup", "rex", "timechart", "span=1h", "bin", "top", "fields", "as", ",", `"`, `\`, "\x00", "\xff", "sum(a)", "field=a", "earliest=-1h"}
 	case "SQL":
-		return []string{"select", "*", "a", "from", "t", "where", "=", "1", "'x'", "group", "by", "order", "limit", "count(*)", ",", "and", "(", ")", "as", "`", "\x00"}
+		return []string{"select", "*", "a", "from", "t", "where", "=", "1", "'x'", "group", "by", "order", "limit", "count(*)", ",", "and", "(", ")", "as", "`", "\x00",
+			"describe", "Describe", "SHOW", "Select"} // statements other than select, and keywords in mixed case
 	case "PromQL":
 		return []string{"m", "{", "}", "job", "=", "=~", `"a"`, `".*"`, ",", "sum", "by", "(", ")", "rate", "[5m]", "+", "2", "offset", "1h", "without", "avg_over_time", "\x00", "/", "-"}
 	case "ES":
@@ -278,7 +279,7 @@ func queryResourcesLeft(w *kernel.Worker, base map[string]map[string]int) (int64
 			if n <= base["sigs"][sig] {
 				continue
 			}
-			for _, pkg := range []string{"pkg/segment/query.", "pkg/segment/query/processor.", "pkg/segment/search.", "pkg/ast/pipesearch.", "pkg/segment.Execute"} {
+			for _, pkg := range []string{"pkg/segment/query.", "pkg/segment/query/processor.", "pkg/segment/search.", "pkg/ast/pipesearch.", "pkg/ast/pipesearch/multiplexer.", "pkg/segment.Execute"} {
 				// the long-lived service loops of these packages (started once at boot; their stack varies between sleeping and working)
 				longLived := false
 				for _, l := range []string{"PullQueriesToRun", "Loop", "Forever", "Looper", "InitQueryNode", "initSyncSegMetaForAllIds"} {
@@ -317,7 +318,7 @@ func C17() int {
 	if rep.Tier == "thorough" {
 		depth = map[string]int{"Splunk QL": 4, "SQL": 4, "PromQL": 5, "ES": 4}
 	}
-	rep.Rule = "(a) every token string up to a length (Splunk QL/SQL/ES-DSL 3, PromQL 4; one more in thorough) over per-language alphabets (40/21/24/18 tokens incl. lone quote, backslash, NUL, 0xFF, unbalanced " +
+	rep.Rule = "(a) every token string up to a length (Splunk QL/SQL/ES-DSL 3, PromQL 4; one more in thorough) over per-language alphabets (40/25/24/18 tokens incl. lone quote, backslash, NUL, 0xFF, unbalanced " +
 		"JSON) through the real parsers, twice: must return a plan or an error, must not kill the process or hang, and the two plans must be deeply equal. (b) 346 Splunk-QL queries generated from 68 command " +
 		"templates × fields {dense, sparse, absent, mixed-type, numeric-string} plus SQL queries, over a 4-event dataset in open and rotated layouts, one call each: the worker stays alive and answers " +
 		"(results or error) within 120 s; afterwards the running-query count is 0 and no goroutine whose stack lies in the query packages remains (compared by stack signature with a baseline taken before). " +
